@@ -285,11 +285,64 @@ Theorem C19_line9_units : forall ind u,
 Proof. exact line9_print. Qed.
 Print Assumptions C19_line9_units.
 
-(* STILL UNPROVED (DESIGN 8.1 rung 3): (i) expected_vars f = spec_roundtrip f on dom (index bookkeeping
-   between exp_vars and the per-variable map; the per-cell content is C19_cell_roundtrip_partial and
-   C19_written_columns) and (ii) the closure of the side conditions under to_file, needed to state the
-   second cycle for whole files.  Both are evaluated by vm_compute on the files below and compared with
-   the library on every generated case. *)
+(* (i) what the reader returns for the writer's output IS what the property demands: expected_vars f =
+   spec_roundtrip f (names and order, every variable's own units and code, masked cells masked, values
+   to seven digits), under the boolean condition spec_ok (line 9 carries the independent variable's units,
+   its code is the first dependent code, every variable has units, every masked cell prints as its code
+   and no unmasked cell does) - any number of variables and records. *)
+Theorem C19_expected_is_spec : forall f ind iv,
+  indep_name f = Some ind -> find_var ind f = Some iv ->
+  header_ok f ind = true -> data_ok f ind iv = true -> spec_ok f ind iv = true ->
+  spec_roundtrip f = Some (expected_vars f ind iv).
+Proof. exact expected_is_spec. Qed.
+Print Assumptions C19_expected_is_spec.
+
+(* THE ROUND TRIP ON WHOLE FILES against the specification: write then read succeeds and returns exactly
+   spec_roundtrip f, for every file satisfying the boolean side conditions. *)
+Theorem C19_roundtrip_whole : forall f n ls ind sd iv,
+  impl_write f = Some (n, ls) ->
+  indep_name f = Some ind -> get_attr (s2z "SDATE") (f_attrs f) = Some sd -> find_var ind f = Some iv ->
+  forallb no_nl (hdr_other f ind sd) = true ->
+  header_ok f ind = true -> data_ok f ind iv = true -> spec_ok f ind iv = true ->
+  exists A sp, impl_roundtrip f = Some (RFile n A sp) /\ spec_roundtrip f = Some sp.
+Proof. exact roundtrip_whole_spec. Qed.
+Print Assumptions C19_roundtrip_whole.
+
+(* reading is a fixed point of the specification: the file that was read back demands itself *)
+Theorem C19_spec_fixed_point : forall f ind iv sp A,
+  indep_name f = Some ind -> find_var ind f = Some iv ->
+  uniq (ind :: map v_name (depvars ind f)) = true ->
+  spec_roundtrip f = Some sp ->
+  indep_name (to_file (RFile 0 A sp)) = Some ind ->
+  spec_roundtrip (to_file (RFile 0 A sp)) = Some sp.
+Proof. exact spec_to_file. Qed.
+Print Assumptions C19_spec_fixed_point.
+
+(* (ii) SECOND CYCLE ON WHOLE FILES: write . read . write . read = write . read on the variables (names,
+   order, units, codes, masks, values), when the file f and the file read back from it both satisfy the
+   boolean side conditions. *)
+Theorem C19_second_cycle_whole : forall f n ls ind sd iv r1 n2 ls2 sd2 iv2,
+  impl_write f = Some (n, ls) ->
+  indep_name f = Some ind -> get_attr (s2z "SDATE") (f_attrs f) = Some sd -> find_var ind f = Some iv ->
+  forallb no_nl (hdr_other f ind sd) = true ->
+  header_ok f ind = true -> data_ok f ind iv = true -> spec_ok f ind iv = true ->
+  impl_roundtrip f = Some r1 ->
+  let f2 := to_file r1 in
+  impl_write f2 = Some (n2, ls2) ->
+  indep_name f2 = Some ind -> get_attr (s2z "SDATE") (f_attrs f2) = Some sd2 -> find_var ind f2 = Some iv2 ->
+  forallb no_nl (hdr_other f2 ind sd2) = true ->
+  header_ok f2 ind = true -> data_ok f2 ind iv2 = true -> spec_ok f2 ind iv2 = true ->
+  exists r2, impl_second f = Some r2 /\ r_vars r2 = r_vars r1 /\ spec_roundtrip f = Some (r_vars r1).
+Proof. exact second_cycle_whole. Qed.
+Print Assumptions C19_second_cycle_whole.
+
+(* LEFT (DESIGN 8.1 rung 3): the CLOSURE of the side conditions, i.e. deriving the eight hypotheses about
+   f2 = to_file r1 in C19_second_cycle_whole from those about f.  The variable part would follow from
+   C19_spec_fixed_point and C19_print_idempotent; the attribute part needs an invariant on the attribute
+   list carried through the header loop (INDEPENDENT_VARIABLE and SDATE present, every key stripped and
+   free of line breaks), which C19_header_state_machine leaves existential.  The hypotheses are boolean,
+   are evaluated by vm_compute on the file below and hold on every generated in-domain case (F and S on
+   the second cycle). *)
 Example C19_header_hypotheses_inhabited :
   header_ok w_good (s2z "t") = true /\ forallb no_nl (hdr_other w_good (s2z "t") (s2z "2020, 01, 02")) = true
   /\ line9_unit (indep_line w_good (s2z "t")) = s2z "t"
@@ -307,3 +360,21 @@ Proof. vm_compute. repeat split; try reflexivity; discriminate. Qed.
 Example C19_repaired_cases :
   forallb (fun f => dom f && rt_ok f && second_ok f && detect_ok f) [w_newline; w_lod; w_fill; w_short; w_level] = true.
 Proof. vm_compute. reflexivity. Qed.
+
+(* non-vacuity of C19_roundtrip_whole and C19_second_cycle_whole: all side conditions hold for w_good and
+   for the file read back from it *)
+Definition side_ok (f : file) : bool :=
+  match indep_name f, get_attr (s2z "SDATE") (f_attrs f) with
+  | Some ind, Some sd =>
+      match find_var ind f, impl_write f with
+      | Some iv, Some _ => forallb no_nl (hdr_other f ind sd) && header_ok f ind && data_ok f ind iv && spec_ok f ind iv
+      | _, _ => false
+      end
+  | _, _ => false
+  end.
+Example C19_whole_file_hypotheses_inhabited :
+  side_ok w_good = true
+  /\ match impl_roundtrip w_good with Some r1 => side_ok (to_file r1) | None => false end = true
+  /\ indep_name w_good = Some (s2z "t")
+  /\ match impl_roundtrip w_good with Some r1 => indep_name (to_file r1) | None => None end = Some (s2z "t").
+Proof. vm_compute. repeat split; reflexivity. Qed.
